@@ -760,3 +760,13 @@ package zygo
 // is computed from the code on every run); and Reset puts back the values a
 // fresh lexer has.
 //@ resets C13 Lexer | (*Lexer).Reset | (*Lexer).PeekNextToken, (*Lexer).GetNextToken, (*Lexer).LexNextRune, (*Lexer).AddNextStream, (*Lexer).PromoteNextStream | parser
+//@ func (*Lexer).Reset
+//@ C13 ensures fresh-values: lex.state == LexerNormal && lex.linenum == 1 && len(lex.tokens) == 0 && lex.stream == nil && len(lex.next) == 0
+//@ |  && lex.prevrune == 0 && lex.preBuiltinRune == 0 && lex.priori == 0 && forall(k, 0 <= k && k < 20 ==> lex.priorRune[k] == 0)
+//@ |  && lex.prevToken.typ == 0 && lex.prevToken.str == ""
+//@ func NewLexer
+//@ C13 ensures fresh-values: r0.state == LexerNormal && r0.linenum == 1 && len(r0.tokens) == 0 && r0.stream == nil && len(r0.next) == 0
+//@ |  && r0.prevrune == 0 && r0.preBuiltinRune == 0 && r0.priori == 0 && forall(k, 0 <= k && k < 20 ==> r0.priorRune[k] == 0)
+//@ |  && r0.prevToken.typ == 0 && r0.prevToken.str == ""
+//@ func (*Parser).ResetAddNewInput
+//@ C13 assert lexer-is-reset @before call AddNextStream[0]: arg0.state == LexerNormal && len(arg0.tokens) == 0 && arg0.stream == nil && len(arg0.next) == 0 && arg0.priori == 0
